@@ -423,16 +423,22 @@ def main():
     import concurrent.futures as cf
     results, logs, hs = {}, [], []
     per_kind = {kname: ["c17_%s_op%d" % (kname, op) for op in range(11)] for kname, _ in KINDS}
-    # quick tier: only the harnesses whose measured CBMC time (k/c17_calibration.json, this image, 12 concurrent) is <= 260 s;
+    # quick tier: only the harnesses whose measured CBMC time (k/c17_calibration.json, this image, 12 concurrent) is <= 150 s;
     # the thorough tier runs all 44
     cal = json.load(open(os.path.join(os.path.dirname(os.path.abspath(__file__)), "c17_calibration.json")))
     skipped = []
     if quick:
         for kname in per_kind:
-            keep = [h for h in per_kind[kname] if cal.get(h, {}).get("status") == "SUCCESSFUL" and cal.get(h, {}).get("cbmc_s", 1e9) <= 260]
+            keep = [h for h in per_kind[kname] if cal.get(h, {}).get("status") == "SUCCESSFUL" and cal.get(h, {}).get("cbmc_s", 1e9) <= 150]
             skipped += [h for h in per_kind[kname] if h not in keep]
             per_kind[kname] = keep
     weights = {h: float(v.get("cbmc_s", 100)) for h, v in cal.items()}
+    # VERIF_ONLY=<substring>[,<substring>]: development aid (used when trying seeded changes) - run only the matching harnesses
+    only = [o for o in os.environ.get("VERIF_ONLY", "").split(",") if o]
+    if only:
+        for kname in per_kind:
+            skipped += [h for h in per_kind[kname] if not any(o in h for o in only)]
+            per_kind[kname] = [h for h in per_kind[kname] if any(o in h for o in only)]
     for v in per_kind.values():
         hs += v
 
@@ -441,7 +447,7 @@ def main():
         os.makedirs(root, exist_ok=True)
         if not per_kind[kname]:
             return {}, []
-        return K.run_all(crate_dir(kname), root, per_kind[kname], 4 if quick else 3, 1500 if quick else 3600, 12, ["-Z", "stubbing", "-Z", "restrict-vtable"], weights)
+        return K.run_all(crate_dir(kname), root, per_kind[kname], 3, 1500 if quick else 3600, 12, ["-Z", "stubbing", "-Z", "restrict-vtable"], weights)
     with cf.ThreadPoolExecutor(max_workers=4) as pool:
         for r, l in pool.map(run_kind, [k for k, _ in KINDS]):
             results.update(r)
